@@ -553,6 +553,9 @@ class Interp(object):
 
     def exec_for(self, node, env):
         it = yield from self.ev(node.iter, env)
+        if isinstance(it, SSymRange):
+            yield from self.exec_sum_loop(node, env, it)
+            return
         loop = self.iterate(it)
         while True:
             item = yield from self.next_item(loop)
@@ -566,6 +569,118 @@ class Interp(object):
             except _Continue:
                 continue
         yield from self.exec_block(node.orelse, env)
+
+    # accumulation loops over a symbolic range ------------------------------------------------------------
+    def _sum_loop_shape(self, node):
+        """`for v in range(..): [local = expr]* ; ACC += expr  | nested loop of the same form` with one accumulator ACC
+        that is not read by any right-hand side.  Returns the accumulator target node or None."""
+        acc = []
+
+        def scan(body):
+            for st in body:
+                if isinstance(st, ast.Assign) and all(isinstance(t, ast.Name) for t in st.targets):
+                    continue
+                if isinstance(st, ast.AugAssign) and isinstance(st.op, ast.Add) and isinstance(st.target, (ast.Name, ast.Attribute)):
+                    acc.append(st.target)
+                    continue
+                if isinstance(st, ast.For) and not st.orelse and isinstance(st.target, ast.Name):
+                    if not scan(st.body):
+                        return False
+                    continue
+                if isinstance(st, ast.Expr) and isinstance(st.value, ast.Constant):
+                    continue
+                return False
+            return True
+        if node.orelse or not isinstance(node.target, ast.Name) or not scan(node.body) or not acc:
+            return None
+        key = ast.dump(acc[0])
+        if any(ast.dump(a) != key for a in acc):
+            return None
+        # the accumulator must not be read on a right-hand side
+        for n in ast.walk(node):
+            if isinstance(n, ast.AugAssign):
+                if any(ast.dump(x) == key for x in ast.walk(n.value) if isinstance(x, (ast.Name, ast.Attribute))):
+                    return None
+            elif isinstance(n, ast.Assign):
+                if any(ast.dump(x) == key for x in ast.walk(n.value) if isinstance(x, (ast.Name, ast.Attribute))):
+                    return None
+        return acc[0]
+
+    def summarise_sum(self, lo, hi, thunk):
+        """SUM_{it=lo}^{hi-1} thunk(it) as an uninterpreted sum, matched by ordinal between the code run and the
+        contract run; the Comparer proves the matched summands equal at a generic index (and the bounds equal), which
+        justifies -- by extensionality of finite sums -- giving matched sums the same result symbol.  Free variables
+        of enclosing summarised loops become arguments of the result symbol."""
+        st = self.st
+        st.sum_ctr = getattr(st, 'sum_ctr', 0) + 1
+        k = st.sum_ctr
+        itv = z3.Int('it!%d' % k)
+        st.loop_vars = getattr(st, 'loop_vars', [])
+        free = list(st.loop_vars)
+        lo_z, hi_z = to_z3(lo), to_z3(hi)
+        # the summand is only ever needed for lo <= it < hi (nothing is said about an empty range)
+        st.add_fact(z3.Implies(lo_z < hi_z, z3.And(lo_z <= itv, itv < hi_z)))
+        st.loop_vars.append(itv)
+        try:
+            v = yield from thunk(itv)
+        finally:
+            st.loop_vars.pop()
+        v = self.unopt(v)
+        lo_t, hi_t = to_int(lo) if is_sym(lo) else lo, to_int(hi) if is_sym(hi) else hi
+        count = simp(mk_sub(hi_t, lo_t))
+
+        def at(term, t):
+            return z3.substitute(term, (itv, to_z3(mk_add(lo_t, t)))) if is_sym(term) else term
+        R = z3.RealSort()
+        Isort = z3.IntSort()
+        if isinstance(v, SArr):
+            snap = v.snapshot(st)
+            shape = tuple(v.shape)
+            st.ext_calls.append(('sum', (lambda idx: at(to_real(snap(tuple(idx[:-1]))), idx[-1])), shape + (count,), lo_t))
+            F = z3.Function('sum!%d' % k, *([Isort] * (len(shape) + len(free)) + [R]))
+            return st.new_array(shape, lambda idx: F(*([to_int(i) if is_sym(i) else z3.IntVal(i) for i in idx] + free)))
+        if not (is_num(v) or is_boolish(v)):
+            raise Unsupported('sum over a symbolic range of %r' % (v,))
+        st.ext_calls.append(('sum', (lambda idx: at(to_real(v), idx[-1])), (count,), lo_t))
+        F = z3.Function('sum!%d' % k, *([Isort] * len(free) + [R]))
+        return F(*free) if free else F()
+
+    def exec_sum_loop(self, node, env, rng):
+        target = self._sum_loop_shape(node)
+        if target is None:
+            raise Unsupported('loop over a symbolic range that is not a plain accumulation (needs a loop invariant): %r' % (rng,))
+        cur = yield from self.ev(target, env)
+        cur = self.unopt(cur)
+        if isinstance(cur, SArr):
+            before = cur.snapshot(self.st)
+            shape = tuple(cur.shape)
+        elif is_num(cur):
+            before = cur
+        else:
+            raise Unsupported('accumulator of type %r' % (type(cur).__name__,))
+        assigned = set(t.id for n in ast.walk(node) for t in (n.targets if isinstance(n, ast.Assign) else ([n.target] if isinstance(n, ast.For) else [])) if isinstance(t, ast.Name))
+
+        def thunk(itv):
+            # one generic iteration, started from a zero accumulator: what it leaves there is the summand
+            if isinstance(cur, SArr):
+                store_write(self.st, cur, lambda vi: 0)
+            else:
+                yield from self.assign(target, 0, env)
+            yield from self.assign(node.target, itv, env)
+            yield from self.exec_block(node.body, env)
+            d = yield from self.ev(target, env)
+            d = self.unopt(d)
+            if isinstance(d, SArr):
+                return self.copy_array(d)
+            return d
+        total = yield from self.summarise_sum(rng.lo, rng.hi, thunk)
+        if isinstance(cur, SArr):
+            ts = total.snapshot(self.st)
+            store_write(self.st, cur, lambda vi: mk_add(before(vi), ts(vi)))
+        else:
+            yield from self.assign(target, mk_add(before, total), env)
+        for nm in assigned:
+            env.vars.pop(nm, None)       # per-iteration locals have no meaning after a summarised loop
 
     # iteration protocol over interpreter values --------------------------------
     def iterate(self, it):
@@ -1122,6 +1237,12 @@ class Interp(object):
         if name == 'sqrt':
             return self.sqrt(a)
         if name == 'abs':
+            if is_sym(a) and z3.is_int(a) and getattr(self.st, 'loop_vars', None):
+                # inside a summarised loop: the sign of an index difference is usually fixed by the loop bounds
+                if not self.st.feasible(a < 0):
+                    return a
+                if not self.st.feasible(a > 0):
+                    return mk_neg(a)
             return mk_abs(a)
         f = ufun(name)
         t = f(to_real(a))
